@@ -495,6 +495,8 @@ def doc_verdict(text_lines, version, dialect="standard"):
                 s = seg(f[1])
                 if s is not None and re.match(r"[0-9]+\Z", s[2]):
                     dollar_rule(V, int(s[2]), s, f[3], f[4])
+            if rt in "OU" and f[1] != "*" and any((it[:-1] if rt == "O" else it) == f[1] for it in f[2].split(" ")):
+                V.maybe("group-lists-itself")       # the grammar does not say; the library refuses it (NotUniqueError)
             if rt == "O":
                 for it in f[2].split(" "):
                     if it[:-1] not in names:
